@@ -101,6 +101,12 @@ func fill(c *Cluster, res *RunResult) {
 	if seam.Stray != 0 && res.ToolError == "" {
 		res.ToolError = fmt.Sprintf("randomness was drawn outside a node context %d times", seam.Stray)
 	}
+	// E3: end the run loop goroutines of the nodes that are still running
+	for _, id := range c.ids {
+		if n := c.nodes[id]; n.drv != nil {
+			n.down()
+		}
+	}
 }
 
 // Replay executes an action list. If the list ends with the HealPhase marker
